@@ -533,8 +533,8 @@ def malformed(ctx):
     junk = ["", "m", "m 1", "m 1 10", "m 1 0 8", "m 1 10 3", "m 1 10 0", "m x 10 8", "m 1 -5 8", "m 1 10 8 extra", "c 1 10 2097152",
             "r 1 10", "f 1", "f", "r 1", "q 1 2 3", "m 1 10 8 | Z", "m 1 10 8 | M", "m 1 10 8 | Mx", "m 1 10 8 | R", "m 1 10 8 | U?",
             "m 1 99999999999999999999999 8", "m 1 9223372036854775808 8", "reset now", "dump", "dump maybe", "verify", "verify x",
-            "m 1 10 8 |", "m +1 10 8", "m 1 1_0 8", "pure", "pure nosuch 1", "pure align_up 1"]
-    out = ["reset"] + junk + ["m 5 100 8", "m 5 100 8", "f 6", "r 6 10", "f 5", "f 5"]
+            "m +1 10 8", "m 1 1_0 8", "pure", "pure nosuch 1", "pure align_up 1"]
+    out = ["reset"] + junk + ["m 5 100 8 | M1048576", "m 5 100 8", "f 6", "r 6 10", "r 5 200", "f 5", "f 5", "r 5 10"]
     for _ in range(30):
         out.append("%s %d %d %d" % (r.choice("mc"), r.range(100, 200), r.choice([0, 2 ** 63, 2 ** 64]), r.choice([0, 3, 12, 1 << 21])))
     return out
